@@ -178,8 +178,8 @@ func discharge(u *Unit, o *Obligation, cfg *solveCfg, idx int) {
 	}
 	slowT := cfg.slowT
 	if strings.Contains(o.Tag, "slow") {
-		// a clause marked slow in its contract gets three times the budget (it is known to need tens of seconds)
-		slowT *= 3
+		// a clause marked slow in its contract gets four times the budget (it is known to need tens of seconds)
+		slowT *= 4
 	}
 	race := []string{"z3-new", "z3", "cvc5"}
 	ctx, cancel := context.WithCancel(context.Background())
